@@ -21,7 +21,7 @@ EXHAUSTIVE = {"quick": ["all strings len<=3 over AC as one repertoire, k=1..3, 4
                            "hierarchical: 4 methods x 2 criteria x t in 1..4 on fixed witnesses"]}
 REQUIRE = {"graph_cc_cases": 30, "graph_community_cases": 20, "empty_neighbour_list_cases": 2, "isolated_node_cases": 15,
            "d0_edge_cases": 10, "series_node_label_cases": 8, "hier_cases": 40, "hier_table_cases": 6, "hier_nondefault_index": 8,
-           "identity_cases": 20, "identity_multi_member": 10}
+           "identity_cases": 20, "identity_multi_member": 10, "hier_t_zero_cases": 3}
 SHARDS = {"quick": 4, "thorough": 16}
 
 
@@ -125,6 +125,8 @@ def k_hier(ctx, seqs, method, criterion, t, container=None, optimal=True):
     import scipy.cluster.hierarchy as hc
     import pyrepseq as prs
     ctx.count("hier_cases")
+    if t == 0:
+        ctx.count("hier_t_zero_cases")
     if container and container.startswith("series") and container != "series_default":
         ctx.count("hier_nondefault_index")
     d = np.array(_condensed(seqs, O.lev))
@@ -264,7 +266,7 @@ def generate(tier, seed):
                         "labels": ["list", "series", "ndarray", "series_shifted"][i % 4]}, i < 50
     wit = ["CASSF", "CASF", "CAWF", "CASSLF", "CASSF", "CDDDDDF", "CAW", "CDDDDF"]
     for method in ("single", "complete", "average", "weighted"):
-        for crit, ts in (("distance", [1, 2, 3, 4] if thorough else [1, 3]), ("maxclust", [1, 2, 3, 4] if thorough else [2, 3])):
+        for crit, ts in (("distance", [0, 0.5, 1, 2, 3, 4] if thorough else [0, 1, 3]), ("maxclust", [1, 2, 3, 4] if thorough else [2, 3])):
             for t in ts:
                 yield "hier", {"seqs": wit, "method": method, "criterion": crit, "t": t}, True
     for c in ("tuple", "ndarray_U", "series_shifted", "series_string", "series_permuted"):
@@ -278,7 +280,7 @@ def generate(tier, seed):
         if cont == "tuple" and len(seqs) == 2:
             cont = None
         yield "hier", {"seqs": seqs, "method": ["single", "complete", "average", "weighted"][i % 4], "criterion": ["distance", "maxclust"][i % 2],
-                       "t": rng.choice([1, 2, 3, 5]), "container": cont, "optimal": i % 3 != 0}, i < 30
+                       "t": rng.choice([0, 1, 2, 3, 5, 1.5]) if i % 2 == 0 else rng.choice([1, 2, 3, 5]), "container": cont, "optimal": i % 3 != 0}, i < 30
     cells = ["CAF", "CAAF", "CAW", "CF", "CASF", "CAAAF"]
     for i in range(300 if thorough else 24):
         rows = [[rng.choice(cells), rng.choice(cells)] for _ in range(rng.randint(3, 14))]
